@@ -198,43 +198,128 @@ def run(ctx, params):
         times = [(o.start_time, o.end_time) for o in ops]
         for k, (s, e) in enumerate(times):
             ctx.observe(f't{k}', [s, e])
-        # ---- chain: copy k starts at the max end over the relation leaves of copy k-1 -----------------------------------
-        for sub in subs:
-            steps = sub.children
-            if any(c.is_sub for c in steps):
-                continue
+        # ---- chain: copy k starts at the max end over the relation leaves of copy k-1 (any nesting depth) -------------------------------
+        # Occurrences of one leaf step in the listing are ordered lexicographically by the copy indices of its enclosing repeated
+        # blocks (outermost first): a copy hangs below a leaf of the previous copy, so its relation depth -- and its breadth-first
+        # position -- is larger; a nested block is expanded in place.
+        def ancestors(n):
+            out = []
+            while n.parent is not None:
+                n = n.parent
+                out.append(n)
+            return list(reversed(out))          # outermost first
+        occ = {}
+        ok_counts = True
+        for n in leaves:
+            mine = [o for o in ops if getattr(o, 'duration_strategy', None) is n.obj.duration_strategy]
+            radix = [top_rep] + [a.rep for a in ancestors(n)]
+            tot = 1
+            for r in radix:
+                tot *= r
+            if len(mine) != tot:
+                ok_counts = False
+            occ[id(n)] = (mine, radix)
+
+        def op_at(n, ks):
+            mine, radix = occ[id(n)]
+            idx = 0
+            for r, k in zip(radix, ks):
+                idx = idx * r + k
+            return mine[idx]
+
+        def leaves_under(node):
+            return [node] if not node.is_sub else [x for c in node.children for x in leaves_under(c)]
+
+        def all_indices(node, ks):
+            """index vectors of every copy of the leaves under `node`, given the indices ks of the blocks enclosing `node`"""
+            out = []
+            for lf in leaves_under(node):
+                anc = ancestors(lf)
+                below = anc[anc.index(node):] if node in anc else []
+                reps = [a.rep for a in below]
+                import itertools as _it
+                for tail in _it.product(*[range(r) for r in reps]):
+                    out.append((lf, list(ks) + list(tail)))
+            return out
+
+        def end_of(step, ks):
+            if not step.is_sub:
+                return op_at(step, ks).end_time
+            return cm.smax([op_at(lf, idx).end_time for lf, idx in all_indices(step, ks)])
+
+        def first_steps(steps):
+            depth = cm.relation_depths(steps)
+            return [i for i, st in enumerate(steps) if st.rel is None and not cm.implicit_predecessors(steps, i, depth)]
+
+        def leaf_steps(steps):
             depth = cm.relation_depths(steps)
             referred = set()
             for i, st in enumerate(steps):
-                if st.rel is not None:
-                    referred.add(st.rel[1])
-                else:
-                    for j in cm.implicit_predecessors(steps, i, depth):
-                        referred.add(j)
-            leaf_steps = [i for i in range(len(steps)) if i not in referred]
-            first_steps = [i for i, st in enumerate(steps) if st.rel is None and not cm.implicit_predecessors(steps, i, depth)]
-            strat_of = {id(st.obj.duration_strategy): i for i, st in enumerate(steps)}
-            # copy k of step i = the k-th occurrence of step i in the listing: copy k hangs below a leaf of copy k-1, so its relation
-            # depth (and therefore its breadth-first position) is larger than that of the same step in copy k-1
-            occ = {i: [o for o in ops if getattr(o, 'duration_strategy', None) is st.obj.duration_strategy] for i, st in enumerate(steps)}
-            if not all(len(v) == sub.rep for v in occ.values()):
-                continue   # reported by C06.count
-            copies = [{i: [occ[i][k]] for i in range(len(steps))} for k in range(sub.rep)]
-            for k in range(1, len(copies)):
-                prev_leaf_end = cm.smax([copies[k - 1][i][0].end_time for i in leaf_steps])
-                for i in first_steps:
-                    s = copies[k][i][0].start_time
-                    ctx.check('C06.chain', s == prev_leaf_end, {'block': sub.label(), 'copy': k, 'step': i, 'start': s, 'expected': prev_leaf_end,
-                                                               'leaf_steps': leaf_steps, 'prev_ends': [copies[k - 1][i2][0].end_time for i2 in leaf_steps]})
-            # n*T: if the last-ending operation of one copy is a relation leaf, the block occupies n*T
-            all_ops0 = [copies[0][i][0] for i in range(len(steps))]
-            span_end = cm.smax([o.end_time for o in all_ops0])
-            leaf_end = cm.smax([copies[0][i][0].end_time for i in leaf_steps])
-            first_start = cm.smin([o.start_time for o in all_ops0])
-            guard = s_and(span_end == leaf_end, *[o.start_time >= copies[0][first_steps[0]][0].start_time for o in all_ops0]) if first_steps else False
-            last_end = cm.smax([o.end_time for c in copies for v in c.values() for o in v])
-            occupied = last_end - copies[0][first_steps[0]][0].start_time if first_steps else 0
-            ctx.check('C06.nT', s_implies(guard, occupied == sub.rep * T[sub.label()]), {'block': sub.label(), 'n': sub.rep, 'T': T[sub.label()], 'occupied': occupied})
+                for j in ([st.rel[1]] if st.rel is not None else cm.implicit_predecessors(steps, i, depth)):
+                    referred.add(j)
+            return [i for i in range(len(steps)) if i not in referred]
+
+        def starts_of(step, ks):
+            """start terms of the first operations of a step (a sub-circuit starts with the first steps of its copy 0)"""
+            if not step.is_sub:
+                return [op_at(step, ks).start_time]
+            out = []
+            for i in first_steps(step.children):
+                out += starts_of(step.children[i], list(ks) + [0])
+            return out
+
+        def chain(block, ks_outer):
+            steps = block.children
+            if not leaves_under(block):
+                return
+            ls, fs = leaf_steps(steps), first_steps(steps)
+            for k in range(block.rep):
+                ks = list(ks_outer) + [k]
+                if k >= 1:
+                    prev_end = cm.smax([end_of(steps[i], list(ks_outer) + [k - 1]) for i in ls])
+                    # fingerprint of known finding F1b: a leaf of the previous copy is a nested block in which an operation starts before
+                    # the block's first operations, so the block's reported end (start + duration) lies after its last operation
+                    early = []
+                    for i in ls:
+                        if steps[i].is_sub:
+                            idxs = all_indices(steps[i], list(ks_outer) + [k - 1])
+                            if idxs:
+                                first = cm.smin(starts_of(steps[i], list(ks_outer) + [k - 1]))
+                                early.append(cm.smin([op_at(lf, ix).start_time for lf, ix in idxs]) < first)
+                    early_inner = s_or(*early)
+                    for i in fs:
+                        for st_ in starts_of(steps[i], ks):
+                            ctx.check('C06.chain', st_ == prev_end, {'block': block.label(), 'copy': k, 'outer_copies': list(ks_outer), 'first_step': steps[i].label(),
+                                                                      'start': st_, 'expected_max_leaf_end_of_previous_copy': prev_end, 'leaf_steps': [steps[i2].label() for i2 in ls],
+                                                                      'early_inner_op_in_nested_leaf_block': early_inner})
+                for c_ in steps:
+                    if c_.is_sub:
+                        chain(c_, ks)
+
+        if ok_counts and all(n.kind[0] == 'W' for n in leaves):
+            class _Top:   # the top-level circuit as a block
+                children, rep, is_sub = built.nodes, top_rep, True
+                def label(self): return 'top'
+            top = _Top()
+            for n in built.nodes:
+                pass
+            # treat the top circuit like any other block (its ancestors list is empty: index vector starts with its own copy index)
+            chain(top, [])
+            # n*T: if the last-ending operation of one copy is a relation leaf (and nothing starts before the first operations), the block occupies n*T
+            for sub in subs:
+                steps = sub.children
+                if any(c.is_sub for c in steps) or sub.rep < 2:
+                    continue
+                ls, fs = leaf_steps(steps), first_steps(steps)
+                copy0 = [op_at(st, [0, 0]) for st in steps]
+                span_end = cm.smax([o.end_time for o in copy0])
+                leaf_end = cm.smax([copy0[i].end_time for i in ls])
+                s0 = copy0[fs[0]].start_time
+                guard = s_and(span_end == leaf_end, *[o.start_time >= s0 for o in copy0])
+                last_end = cm.smax([op_at(st, [0, k]).end_time for st in steps for k in range(sub.rep)])
+                ctx.check('C06.nT', s_implies(guard, last_end - s0 == sub.rep * T[sub.label()]), {'block': sub.label(), 'n': sub.rep, 'T': T[sub.label()], 'occupied': last_end - s0})
+        else:
+            ctx.note('chain_skipped_non_wait_leaves', True)
         # ---- idempotence ---------------------------------------------------------------------------------------------------
         again = unrolled.apply_modifiers()
         ops2 = again.operations
